@@ -46,10 +46,12 @@
 package coregex
 
 import (
+	"bytes"
 	"io"
 	"iter"
 	"regexp/syntax"
 	"strings"
+	"unicode"
 	"unicode/utf8"
 	"unsafe"
 
@@ -958,51 +960,91 @@ func (r *Regex) ExpandString(dst []byte, template string, src string, match []in
 }
 
 // expand appends template to dst and returns the result; during the
-// append, it replaces $1, $2, etc. with the corresponding submatch.
-// $0 is the entire match.
+// append, it replaces variables ($1, $name, ${name}, $$) as documented for
+// Expand, following regexp's template grammar.
 func (r *Regex) expand(dst []byte, template []byte, src []byte, match []int) []byte {
+	for len(template) > 0 {
+		i := bytes.IndexByte(template, '$')
+		if i < 0 {
+			break
+		}
+		dst = append(dst, template[:i]...)
+		template = template[i+1:]
+		if len(template) > 0 && template[0] == '$' {
+			dst = append(dst, '$')
+			template = template[1:]
+			continue
+		}
+		name, num, rest, ok := extractTemplateName(template)
+		if !ok {
+			// Malformed; treat $ as raw text.
+			dst = append(dst, '$')
+			continue
+		}
+		template = rest
+		if num >= 0 {
+			if 2*num+1 < len(match) && match[2*num] >= 0 {
+				dst = append(dst, src[match[2*num]:match[2*num+1]]...)
+			}
+			continue
+		}
+		for i, namei := range r.SubexpNames() {
+			if namei == string(name) && 2*i+1 < len(match) && match[2*i] >= 0 {
+				dst = append(dst, src[match[2*i]:match[2*i+1]]...)
+				break
+			}
+		}
+	}
+	dst = append(dst, template...)
+	return dst
+}
+
+// extractTemplateName checks if template begins with ${name} or $name (the $
+// already consumed) and returns the name, its value as a group number (or -1
+// if it is not a number) and the remainder of the template.
+func extractTemplateName(template []byte) (name []byte, num int, rest []byte, ok bool) {
+	if len(template) == 0 {
+		return nil, 0, nil, false
+	}
+	brace := false
+	if template[0] == '{' {
+		brace = true
+		template = template[1:]
+	}
 	i := 0
 	for i < len(template) {
-		if template[i] != '$' || i+1 >= len(template) {
-			dst = append(dst, template[i])
-			i++
-			continue
+		c, size := utf8.DecodeRune(template[i:])
+		if !unicode.IsLetter(c) && !unicode.IsDigit(c) && c != '_' {
+			break
 		}
-
-		// Handle $ escape sequences
-		next := template[i+1]
-
-		// Check for $0-$9
-		if next >= '0' && next <= '9' {
-			groupNum := int(next - '0')
-			// Each group occupies 2 indices in match array
-			groupIdx := groupNum * 2
-			if groupIdx+1 < len(match) && match[groupIdx] >= 0 {
-				dst = append(dst, src[match[groupIdx]:match[groupIdx+1]]...)
-			}
-			i += 2
-			continue
+		i += size
+	}
+	if i == 0 {
+		// empty name is not okay
+		return nil, 0, nil, false
+	}
+	name = template[:i]
+	if brace {
+		if i >= len(template) || template[i] != '}' {
+			// missing closing brace
+			return nil, 0, nil, false
 		}
-
-		// Check for ${name} - not supported yet, treat as literal
-		if next == '{' {
-			dst = append(dst, '$')
-			i++
-			continue
-		}
-
-		// $$ -> $
-		if next == '$' {
-			dst = append(dst, '$')
-			i += 2
-			continue
-		}
-
-		// Unknown $ escape, treat as literal
-		dst = append(dst, '$')
 		i++
 	}
-	return dst
+
+	// Parse number; leading zeros and overlong numbers make it a name.
+	num = 0
+	for j := 0; j < len(name); j++ {
+		if name[j] < '0' || '9' < name[j] || num >= 1e8 {
+			num = -1
+			break
+		}
+		num = num*10 + int(name[j]) - '0'
+	}
+	if name[0] == '0' && len(name) > 1 {
+		num = -1
+	}
+	return name, num, template[i:], true
 }
 
 // ReplaceAll returns a copy of src, replacing matches of the pattern
